@@ -100,6 +100,23 @@ theorem no_conflicting_vote_after_recovery {S} (M : Machine S) (r : Setoid S)
       ¬ v.conflicts w :=
   no_conflict_upTo hs ne c0 n hist hm cont okc
 
+/-- **Pending timers survive the restart.** A timer that was armed and has not fired has no log
+entry of its own; it exists after a restart only because replay executes `ScheduleTimeout` again.
+At every moment of every history: the restart arms (during replay) exactly the timers that the
+uncrashed live run over the durably recorded inputs armed for the height the chain is waiting for
+(`chainHeight + 1`), and arms no timer that run did not arm. The timers that already fired are the
+ones with a `Timeout` entry in the (same) log, so the PENDING sets agree, too. (In the crash points
+between the flush in front of a commit and its delivery the machine resumes one height further,
+where neither side has armed anything yet.) -/
+theorem recovered_timers_equal_live_timers {S} (M : Machine S) (r : Setoid S)
+    (hs : ReplaySafeUpTo M r) (c0 : Nat) (n : Node) (hist : List Effect) (hm : Moment M c0 n hist) :
+    ∃ insd, ListenOK M (M.init (c0 + 1)) insd ∧
+      entriesOfRecs n.store.flushed = loggedEntries M (M.init (c0 + 1)) insd ∧
+      (∀ t ∈ timersOf (recover M n).2.1, t ∈ timersOf (liveRun M (M.init (c0 + 1)) insd).2) ∧
+      (∀ t ∈ timersOf (liveRun M (M.init (c0 + 1)) insd).2, t.h = n.chainHeight + 1 →
+        t ∈ timersOf (recover M n).2.1) :=
+  recover_timers_upTo hs c0 n hist hm
+
 /-- **Regular stop and restart.** `Run` returns (context cancelled or a listener closed, both only
 in the select loop) and its deferred `db.Close()` flushes the pending batch — also entries of
 inputs that made nothing visible and were never flushed before. A process restarted on that image
@@ -144,39 +161,68 @@ theorem tendermint_never_equivocates (env : Juno.C12.Env) (node : Nat) :
     NoEquivocation (tmMachine env node) :=
   tm_noEquivocation env node
 
-/-- PARTIAL for juno's machine: the crash theorem with `ReplaySafeUpTo (tmMachine env node) r` as
-hypothesis, for any bisimulation `r` one can supply. NOT discharged: for the code as it is the
-hypothesis is false for every `r` (`tm_replaySafe_fails_for_every_equivalence`, finding F4: a
-counted future-height precommit is not logged); with the proposed fix the remaining obligation is
-to prove it for `r` = "equal up to empty vote-counter containers and the order of the association
-lists" (needs congruence of C12's whole `step` w.r.t. that relation; not done). Until then what
-holds for juno's machine is tested, not proved: shape checks `hyp-*`, recovered state against the
-uncrashed live process and against an uncrashed twin, on every crash point the harness takes.
+/-- juno's machine with the `TriggerSync` actions left out (what the driver's log / broadcast /
+commit logic sees) never equivocates either. -/
+theorem tendermint_quiet_never_equivocates (env : Juno.C12.Env) (node : Nat) :
+    NoEquivocation (tmMachineQuiet env node) :=
+  tmQuiet_noEquivocation env node
 
-Full statement wanted: `∀ env node, ∃ r, ReplaySafeUpTo (tmMachine env node) r`. -/
+/-- PARTIAL for juno's machine: the crash theorem for `tmMachineQuiet env node` (C12's transcription
+without the `TriggerSync` actions) with `ReplaySafeUpTo (tmMachineQuiet env node) r` as hypothesis;
+`NoEquivocation` is discharged. NOT discharged — exactly what is missing:
+1. the relation: `r m m'` := all fields equal except `lastTriggerSync`, `lastQuorum`, `valueCalls`, and
+   the vote counters equal up to EMPTY containers (`rounds`/`future` entries that are `RoundData.empty` /
+   `[]`), for environments with `totalPower h > 0` (else `quorumVP = 0` and an empty entry differs
+   observably from a missing one) and a constant `appValue` (a replay-stable `Application.Value()`;
+   without it the statement is false, finding F1);
+2. `Bisim`: congruence w.r.t. `r` of the ~25 functions of C12's `Model` (`addProposal`, `addVote`,
+   `getProposal`, the quorum queries, `startNewHeight`, `select`, the ten rule bodies,
+   `processLoopAux`, `processStart/Message/Proposal/Prevote/Precommit/Timeout`);
+3. the shape fields (`logged_or_inert`, `commit_last`, `no_commit_height`, `votes/timers_current_height`,
+   `timeout_entry_current`, `unstarted_silent`, `future_silent`) from the structure of those functions;
+4. `commute`: a future-height message only touches `future[h_a]`, a step on a lower-height input only
+   `rounds` / `future[h_b]`, and `startNewHeight` promotes exactly `future[h+1]`;
+5. `commit_reset`: `startNewHeight` of a counter that only saw height `h` is `VoteCounter.new (h+1)` up
+   to empty containers.
+For `tmMachine` itself (with `TriggerSync`) the hypothesis is FALSE for every `r`:
+`tendermint_with_sync_actions_is_not_replay_safe`. Until 1–5 are proved, what holds for juno's machine
+is tested on the real code: shape checks `hyp-*`, recovered state against the uncrashed live process and
+an uncrashed twin, pending timers and behaviour in a silent network, on every crash point taken. -/
 theorem no_conflicting_vote_after_recovery_tendermint_partial (env : Juno.C12.Env) (node : Nat)
-    (r : Setoid Juno.C12.Machine) (hs : ReplaySafeUpTo (tmMachine env node) r) (c0 : Nat)
-    (n : Node) (hist : List Effect) (hm : Moment (tmMachine env node) c0 n hist)
-    (cont : List Input) (okc : ListenOK (tmMachine env node) (recover (tmMachine env node) n).1 cont) :
+    (r : Setoid Juno.C12.Machine) (hs : ReplaySafeUpTo (tmMachineQuiet env node) r) (c0 : Nat)
+    (n : Node) (hist : List Effect) (hm : Moment (tmMachineQuiet env node) c0 n hist)
+    (cont : List Input)
+    (okc : ListenOK (tmMachineQuiet env node) (recover (tmMachineQuiet env node) n).1 cont) :
     ∀ v ∈ votesOf hist,
-      ∀ w ∈ votesOf ((recover (tmMachine env node) n).2.1 ++
-        (liveRun (tmMachine env node) (recover (tmMachine env node) n).1 cont).2),
+      ∀ w ∈ votesOf ((recover (tmMachineQuiet env node) n).2.1 ++
+        (liveRun (tmMachineQuiet env node) (recover (tmMachineQuiet env node) n).1 cont).2),
       ¬ v.conflicts w :=
-  no_conflict_upTo hs (tm_noEquivocation env node) c0 n hist hm cont okc
+  no_conflict_upTo hs (tmQuiet_noEquivocation env node) c0 n hist hm cont okc
 
-/-- NEGATION (finding F4, `future-quorum-precommit-counted-but-not-logged`): in C12's transcription
-of the CURRENT code, with 4 equal validators, the third precommit for (height 3, round 0, id 9)
-received at height 1 returns only `TriggerSync 1 3` — no `WriteWAL` — and a second delivery of the
-same precommit returns nothing: it was counted. -/
-theorem future_quorum_precommit_counted_but_not_logged :
-    (tm4.step tmS2 (.precommit 3 0 3 (some 9))).2 = [Action.triggerSync 1 3] ∧
-    (tm4.step (tm4.step tmS2 (.precommit 3 0 3 (some 9))).1 (.precommit 3 0 3 (some 9))).2 = [] :=
-  tm_future_quorum_precommit_not_logged
-
-/-- Hence the current machine satisfies the recovery hypotheses for NO state equivalence. -/
-theorem tm_replaySafe_fails_for_every_equivalence (r : Setoid Juno.C12.Machine) :
+/-- NEGATION for the machine WITH its `TriggerSync` actions (current code): the arguments of
+`TriggerSync` expose the sync bookkeeping (`lastTriggerSync`), which depends on whether a
+quorum-completing future precommit was processed before or after a commit (live order vs the
+height-sorted replay order: `TriggerSync 4 5` vs `TriggerSync 2 5`) and which a restart does not
+restore. So no bisimulation preserving full action lists makes it `ReplaySafeUpTo`. Harmless for the
+property (`TriggerSync` only starts a block fetch); it is why Part 4 is about `tmMachineQuiet`. -/
+theorem tendermint_with_sync_actions_is_not_replay_safe (r : Setoid Juno.C12.Machine) :
     ¬ ReplaySafeUpTo tm4 r :=
-  tm_not_replaySafe_upTo r
+  tm_replaySafeUpTo_fails_sync_bookkeeping r
+
+/-- REGRESSION WITNESS for a defect FIXED in /repo (b154634, F4
+`future-quorum-precommit-counted-but-not-logged`), on the variant of the machine before the fix
+(`tmMachineBefore_b154634`), not about the current code: the third precommit for (height 3, round 0,
+id 9) received at height 1 returned only `TriggerSync 1 3` — no `WriteWAL` — and a second delivery
+returned nothing: it was counted. The current machine logs it (`tm_future_quorum_precommit_logged`). -/
+theorem future_quorum_precommit_counted_but_not_logged_before_b154634 :
+    (tm4Old.step tmS2 (.precommit 3 0 3 (some 9))).2 = [Action.triggerSync 1 3] ∧
+    (tm4Old.step (tm4Old.step tmS2 (.precommit 3 0 3 (some 9))).1 (.precommit 3 0 3 (some 9))).2 = [] :=
+  tm_future_quorum_precommit_not_logged_before_b154634
+
+/-- REGRESSION WITNESS: hence that machine satisfied the recovery hypotheses for NO state equivalence. -/
+theorem tm_replaySafe_failed_for_every_equivalence_before_b154634 (r : Setoid Juno.C12.Machine) :
+    ¬ ReplaySafeUpTo tm4Old r :=
+  tm_not_replaySafe_upTo_before_b154634 r
 
 /-- Why the hypotheses compare states up to `≈` and `unstarted_silent` is about messages only:
 (i) a rejected proposal creates an empty round entry in the vote counter (literal equality fails),
